@@ -517,12 +517,20 @@ func checkGapTree(t *treegen.Tree, top []byte, res *treegen.Result, registered b
 		if L < 0 {
 			continue
 		}
+		shift := int64(0)
+		if subSpan != nil && n == t.Root {
+			// decoded from a sub-range of the top buffer: exactly that range is
+			// to be covered
+			shift, L = subSpan.Start, subSpan.Len
+		}
 		var fields, gaps []rng
 		for _, l := range treegen.SameBufferLeaves(n) {
+			r := nodeRng(l)
+			r.Start -= shift
 			if l.IsGap() && l.Parent == n {
-				gaps = append(gaps, nodeRng(l))
+				gaps = append(gaps, r)
 			} else {
-				fields = append(fields, nodeRng(l))
+				fields = append(fields, r)
 			}
 		}
 		sort.Slice(gaps, func(i, j int) bool { return gaps[i].Start < gaps[j].Start })
